@@ -109,6 +109,17 @@ pub fn gen_win(rng: &mut Rng, count: u64, tier: &str) -> Vec<String> {
             }
         }
     }
+    // more pieces in one flush than a gathered write takes in one call (IOV_MAX = 1024)
+    for (size, n) in [(2000u16, 1025usize), (3000, 3000), (1600, 1500)] {
+        let mut ops: Vec<String> = (0..n).map(|i| format!("a{:02x}{:02x}", (i % 251) as u8, (i / 251) as u8)).collect();
+        ops.push("e".into());
+        if n == 1500 {
+            ops.extend((0..1500).map(|i| format!("a{:02x}{:02x}", (i % 241) as u8, 0x80 + (i / 241) as u8)));
+            ops.push("e".into());
+        }
+        out.push(format!("win W {size} 2 - {}", ops.join(",")));
+        out.push(format!("win A {size} 2 0102 {}", ops.join(",")));
+    }
     // random, longer
     for _ in 0..count {
         let mode = *rng.pick(&["R", "R", "R", "A", "A", "W"]);
